@@ -286,6 +286,79 @@ def _check_fh_case(rng):
     return case
 
 
+def _order_steps(rng):
+    """A step list whose ORDER is the point: (steps, has a duplicate).  Arbitrary sets (contiguous
+    blocks and sparse ones, straddling zero or not) in a random permutation, reversed, with the
+    smallest value first and the largest last but the interior shuffled ([1, 3, 2, 4],
+    [1, 4, 2, 3, 5]), or with first / last merely `len - 1` apart; and the same shapes with one
+    interior value repeated ([1, 2, 2, 4]: first and last still `len - 1` apart) - a duplicate must
+    be rejected whatever the order, a duplicate-free list stored sorted whatever the order."""
+    k = rng.choice([3, 4, 4, 5, 5, 6, 7])
+    a = rng.randint(-6, 6) if rng.random() < 0.6 else rng.randint(1, 9)
+    block = list(range(a, a + k))
+    shape = rng.choice(["ends-fixed", "ends-fixed", "ends-fixed", "permutation", "permutation",
+                        "reversed", "span", "span"])
+    if shape == "span":
+        # sparse set, but first and last are exactly len - 1 apart
+        inner = rng.sample([v for v in range(a - 9, a + k + 9) if v not in (a, a + k - 1)], k - 2)
+        steps = [a] + inner + [a + k - 1]
+        if rng.random() < 0.3:
+            steps = [steps[0]] + sorted(steps[1:-1]) + [steps[-1]]
+    else:
+        base = block if rng.random() < 0.7 else sorted(rng.sample(range(a - 4, a + 2 * k), k))
+        if shape == "permutation":
+            steps = list(base)
+            rng.shuffle(steps)
+        elif shape == "reversed":
+            steps = list(reversed(base))
+        else:
+            inner = list(base[1:-1])
+            for _ in range(5):
+                rng.shuffle(inner)
+                if inner != base[1:-1]:
+                    break
+            steps = [base[0]] + inner + [base[-1]]
+    dup = rng.random() < 0.35
+    if dup:
+        # repeat one value in place of an interior one: length, first and last stay what they were
+        i = rng.randrange(1, len(steps) - 1)
+        j = rng.choice([x for x in range(len(steps)) if x != i])
+        steps = list(steps)
+        steps[i] = steps[j]
+    return steps, dup
+
+
+def _order_case(rng):
+    """Input order x container x relative / absolute x constructor / check_fh (raw or pre-built)."""
+    steps, dup = _order_steps(rng)
+    rel = rng.random() < 0.5
+    kind = rng.choice(["list", "list", "array", "array", "index", "index"])
+    case = {"container": kind}
+    if kind == "list":
+        fl = rng.choice(["i", "i", "I", "f"])
+        case["values"] = [[fl, float(v) if fl == "f" else v] for v in steps]
+    elif kind == "array":
+        dt = rng.choice(["int64", "int64", "int32", "float64"])
+        case["dtype"] = dt
+        case["values"] = [["f", float(v)] if dt == "float64" else ["i", v] for v in steps]
+    else:
+        case["values"] = [["i", v] for v in steps]
+    case.update(_common(rng, sorted(set(steps)), rel))
+    how = rng.choice(["ctor", "ctor", "ctor", "check_fh_raw", "check_fh_obj"])
+    if how == "ctor":
+        case["kind"] = "malformed" if dup else "fh"
+        case["why"] = "duplicate" if dup else "valid"
+    else:
+        case["kind"] = "check_fh"
+        case["why"] = "duplicate" if dup else "valid"
+        # (a pre-built object exists only for constructible horizons: duplicates go in raw)
+        case["raw"] = how == "check_fh_raw" or dup
+        case["enforce"] = rng.random() < 0.4
+        if case["raw"]:
+            case["rel"] = True
+    return case
+
+
 def gen_cases(rng, tier):
     cases = []
     nv, nm, nc = (430, 150, 90) if tier == "quick" else (8000, 2000, 1000)
@@ -295,6 +368,20 @@ def gen_cases(rng, tier):
         cases.append(_malformed_case(rng))
     for _ in range(nc):
         cases.append(_check_fh_case(rng))
+    # input order (after the older streams, which stay what they were)
+    for _ in range(160 if tier == "quick" else 3000):
+        cases.append(_order_case(rng))
+    for steps in ([1, 3, 2, 4], [1, 4, 2, 3, 5], [1, 2, 2, 4], [0, 2, 1, 1, 4], [-2, 0, -1, 1],
+                  [3, 1, 2], [5, 9, 1, 8]):
+        for cont in ("list", "array", "index"):
+            for rel in (True, False):
+                c = {"kind": "fh" if len(set(steps)) == len(steps) else "malformed",
+                     "why": "valid" if len(set(steps)) == len(steps) else "duplicate",
+                     "container": cont, "values": [["i", v] for v in steps]}
+                if cont == "array":
+                    c["dtype"] = "int64"
+                c.update(_common(rng, sorted(set(steps)), rel))
+                cases.append(c)
     if tier == "thorough":
         cases += exhaustive_cases()
     return cases
